@@ -8,6 +8,12 @@ package main
 //@ func main() ()
 //@   propagates all   [C08] [C16]
 //@   property C16
+//@   at call intersect#1
+//@     assert (and (= (rllen docs) 1) (= a@arg (Document.Data (rlnth docs 0))) (= b@arg doc))               [C16]
+//@   at call Parser.MergeFileLayers#1
+//@     assert (= path@arg realPath)                                                                         [C16]
+//@   at call FileMatch#1
+//@     assert (= path@arg elem)                                                                             [C16]
 //@   loop 1
 //@     transition (= doc (ite (= idx@iter 0) (Document.Data (rlnth docs 0)) (interF (Document.Data (rlnth docs 0)) doc@iter)))   [C16]
 //
